@@ -25,6 +25,9 @@ pub struct Job {
     pub expand_only: bool,
     /// which engine family the job belongs to (evidence)
     pub engine: String,
+    /// a special-purpose routine instead of programs ("late-reporter")
+    #[serde(default)]
+    pub probe: Option<String>,
 }
 
 pub fn rule_name(r: Rule) -> &'static str {
